@@ -141,6 +141,23 @@ def main(ctx, replay=None):
             ctx.violation(f"e_{aa} vs e_{ab}: equality/hash wrong", {"a": aa, "b": ab}, {"fn": "e_", "clause": "eq_hash"})
     ctx.sample({"call": "e_(3,2)", "expected_voigt": 4})
 
+    # ---- the rejections do not depend on what was spelled before: the whole rejection table once more, now that every accepted spelling of
+    # every key has been used in this process
+    for fn_name, fn, rows in (("c_", U.c_, table["modulus"]), ("e_", U.e_, table["strain"])):
+        nbad = 0
+        for row in rows:
+            if not row["rejected"]:
+                continue
+            args = _call_args(row)
+            ctx.count({"fn": fn_name, "kind": row["kind"], "d": row["d"], "after": "all accepted spellings"})
+            got, exc = _try(fn, args)
+            if exc is None:
+                nbad += 1
+                if nbad <= 3:
+                    ctx.violation(f"{fn_name}{args} is accepted as {_r(got)} once the accepted spellings have been used in the same process; the index "
+                                  f"algebra rejects it", {"fn": fn_name, "kind": row["kind"], "d": row["d"], "got": _r(got)},
+                                  {"fn": fn_name, "kind": row["kind"], "clause": "rejected_after_history"})
+
     # ---- the rejections do not depend on the interpreter's optimisation flag (python -O strips assert / __debug__ blocks) ------
     import os
     import subprocess
@@ -182,6 +199,8 @@ def main(ctx, replay=None):
         ctx.violation(f"recorded call #{consumed} {bad} is not a Spell step of the specification",
                       {"record": bad, "index": consumed}, {"fn": "trace", "kind": bad["kind"]})
     ctx.cov["trace_records"] = len(records)
+    if getattr(_record_calls, "short", False):
+        ctx.cov["recorder_note"] = "fewer top-level constructor calls recorded than expected (calls answered without the wrapped constructors)"
 
     # the repository's own tests as drivers (thorough): every top-level c_ call they make is validated as well
     if ctx.tier == "thorough":
@@ -289,27 +308,33 @@ def _record_calls(workload=None, minimum=50):
     from cij.io.traditional import read_elast_data
 
     records, depth = [], [0]
+    # both public constructors are wrapped, `create` and its short form `_` (what `c_` is): the outermost call is the one recorded, so a
+    # short form that answers from a table of keys built earlier is recorded like one that calls `create` every time
     orig = V.ModulusRepresentation.__dict__["create"].__func__
+    orig_short = V.ModulusRepresentation.__dict__["_"].__func__
 
-    def create(cls, *args):
-        depth[0] += 1
-        try:
-            out = orig(cls, *args)
-        except Exception:
+    def wrap(inner):
+        def recorded(cls, *args):
+            depth[0] += 1
+            try:
+                out = inner(cls, *args)
+            except Exception:
+                depth[0] -= 1
+                if depth[0] == 0:
+                    c = _classify(args)
+                    if c and c[0]:
+                        records.append({"kind": c[0], "d": c[1], "rej": True, "v": []})
+                raise
             depth[0] -= 1
             if depth[0] == 0:
                 c = _classify(args)
                 if c and c[0]:
-                    records.append({"kind": c[0], "d": c[1], "rej": True, "v": []})
-            raise
-        depth[0] -= 1
-        if depth[0] == 0:
-            c = _classify(args)
-            if c and c[0]:
-                records.append({"kind": c[0], "d": c[1], "rej": False, "v": list(out.voigt)})
-        return out
+                    records.append({"kind": c[0], "d": c[1], "rej": False, "v": list(out.voigt)})
+            return out
+        return recorded
 
-    V.ModulusRepresentation.create = classmethod(create)
+    V.ModulusRepresentation.create = classmethod(wrap(orig))
+    V.ModulusRepresentation._ = classmethod(wrap(orig_short))
     try:
         if workload is not None:
             workload()
@@ -338,8 +363,11 @@ def _record_calls(workload=None, minimum=50):
                 pass
     finally:
         V.ModulusRepresentation.create = classmethod(orig)
+        V.ModulusRepresentation._ = classmethod(orig_short)
     if len(records) < minimum:
-        raise MachineryError(f"recorder captured only {len(records)} c_ calls")
+        # (the package may answer repeated spellings without going through the wrapped constructors; what was recorded is validated, and the
+        #  exhaustive replay above does not depend on the recorder)
+        _record_calls.short = True
     # de-duplicate consecutive repeats but keep order
     out, seen = [], set()
     for r in records:
